@@ -635,7 +635,7 @@ theorem C19_copy_owns_its_dict (v c : Val) (s s' : St) (h : schemaCopy v s = (.o
   refine ⟨?_, fun i hi => (hfr.out i hi).imp id (fun h => h.1)⟩
   unfold schemaCopy at h
   split at h
-  · simp only [Prod.mk.injEq, Except.ok.injEq] at h
+  · simp only [mk, fill, Bool.false_eq_true, ↓reduceIte, Prod.mk.injEq, Except.ok.injEq] at h
     obtain ⟨rfl, _⟩ := h
     refine ⟨_, rfl, fun hm => ?_⟩
     have := hlt _ hm
@@ -703,11 +703,11 @@ def in0 : Val := .node 2 .dict ["n"] [.int 1]
 def in0' : Val := .node 9 .dict ["n"] [.int 1]
 /-- `A(n=1)`; `A(n='x')` (fails); mutate the first result's `a[1]` in place; `A(n=3)` -/
 def hist0 : List Op :=
-  [.call 0 0 1 in0, .call 0 0 1 (.node 9 .dict ["n"] [.str "x"]), .mutate 4 (.append (.int 9)),
-   .call 0 0 1 (.node 12 .dict ["n"] [.int 3])]
+  [.call 0 0 1 in0, .call 0 0 1 (.node 9 .dict ["n"] [.str "x"]), .mutate 8 (.append (.int 9)),
+   .call 0 0 1 (.node 16 .dict ["n"] [.int 3])]
 
 example : InScope env0 := by unfold InScope; decide
-example : (w0.run hist0).2 = [.ok, .perr, .ok, .ok] := by decide
+example : (w0.run hist0).2 = [.ok, .perr, .ok, .ok] := by decide +kernel
 
 instance (act : Act) : Decidable act.atomic := by
   cases act <;> unfold Act.atomic <;> infer_instance
@@ -720,12 +720,12 @@ instance decValidHist : (w : World) → (ops : List Op) → Decidable (ValidHist
   | w, op :: ops => @instDecidableAnd _ _ inferInstance (decValidHist (w.step op).1 ops)
 
 example : WF w0 := ⟨by decide, by decide, by decide⟩
-example : ValidHist w0 hist0 := by decide
+example : ValidHist w0 hist0 := by decide +kernel
 /-- the parse after the history got a copy of the *declared* default `[1, [2]]` (ids 0, 1 untouched),
-although the first result's copy (ids 4, 3) was mutated in between; no two results share an object -/
+although the first result's copy (ids 8, 7) was mutated in between; no two results share an object -/
 example : (w0.run hist0).1.env.dfltVals.map Val.mutIds = [[0, 1]] ∧
     ((w0.run hist0).1.roots.map (fun r => r.map Val.mutIds)) =
-      [some [2], some [5, 6, 4, 3, 4, 3], some [9], none, some [12], some [15, 16, 14, 13, 14, 13]] := by decide +kernel
+      [some [2], some [4, 5, 8, 7, 8, 7], some [9], none, some [16], some [18, 19, 22, 21, 22, 21]] := by decide +kernel
 
 /-- a history with running options and a later declaration of a case-insensitive subclass:
 `A.__from__({}, Options(ignore_required=True))`; `A(n=1)`; declare `Sub(A)` with `case_insensitive`; `A()` fails
@@ -737,7 +737,7 @@ def hist1 : List Op :=
   [.call 0 0 1 (.node 2 .dict [] []) { ignoreRequired := true }, .call 0 0 1 in0',
    .declare sub0 0, .call 0 0 1 (.node 16 .dict [] [])]
 example : env0.closed = true := by decide
-example : (w0.run hist1).2 = [.ok, .ok, .ok, .perr] := by decide
-example : ValidHist w0 hist1 := by decide
+example : (w0.run hist1).2 = [.ok, .ok, .ok, .perr] := by decide +kernel
+example : ValidHist w0 hist1 := by decide +kernel
 
 end Utv.C19
